@@ -570,15 +570,51 @@ struct World
         vs.model = after;
       else
       {
-        std::vector<std::vector<T>> allowed{before};
         if (kind == 2)
-          for (std::size_t j = 1; j <= src.size(); ++j)
+        {
+          // single-pass source: only the basic guarantee. Accepted: the old elements in their old
+          // order plus some prefix of the source in source order, wherever the implementation
+          // had put them when the failure struck (one-by-one insertion, or append-then-rotate)
+          std::vector<T> const c = contents(*vs.sut);
+          // is c an interleaving of `before` (complete) and a prefix of `src`? (values may repeat,
+          // so all splits are tracked: reach[si] = the first k elements of c can be explained with
+          // si elements of src and k - si elements of before)
+          bool good = c.size() >= before.size() && c.size() - before.size() <= src.size();
+          if (good)
           {
-            std::vector<T> a = before;
-            a.insert(a.begin() + static_cast<std::ptrdiff_t>(pos), src.begin(), src.begin() + static_cast<std::ptrdiff_t>(j));
-            allowed.push_back(a);
+            std::size_t const want_si = c.size() - before.size();
+            std::vector<char> reach(want_si + 1, 0), next(want_si + 1, 0);
+            reach[0] = 1;
+            for (std::size_t k = 0; k < c.size() && good; ++k)
+            {
+              std::fill(next.begin(), next.end(), 0);
+              bool any = false;
+              for (std::size_t si = 0; si <= want_si && si <= k; ++si)
+              {
+                if (reach[si] == 0)
+                  continue;
+                std::size_t const bi = k - si;
+                if (si < want_si && c[k] == src[si])
+                {
+                  next[si + 1] = 1;
+                  any = true;
+                }
+                if (bi < before.size() && c[k] == before[bi])
+                {
+                  next[si] = 1;
+                  any = true;
+                }
+              }
+              reach.swap(next);
+              good = any;
+            }
+            good = good && reach[want_si] != 0;
           }
-        resync_vector(s, allowed, "insertr");
+          SIM_CHECK(good, "state-after-fault", "insertr: after a failed insertion of an input range the vector holds " + show(c) + ", which is not the old contents " + show(before) + " plus a prefix of the source");
+          vs.model = c;
+        }
+        else
+          resync_vector(s, {before}, "insertr");
       }
       ctx.ev("insertr v" + std::to_string(s) + " pos=" + std::to_string(pos) + " kind=" + std::to_string(kind) + " n=" + std::to_string(src.size()) + (ok ? "" : " threw"));
       return;
@@ -699,7 +735,11 @@ struct World
       // v[t] = new object moved from v[s]
       if (!vs.sut || v[t].sut || s == t)
         return;
-      guarded([&] { v[t].sut = std::make_unique<RV>(std::move(*vs.sut)); });
+      if (!guarded([&] { v[t].sut = std::make_unique<RV>(std::move(*vs.sut)); }))
+      {
+        vs.model = contents(*vs.sut);
+        return;
+      }
       v[t].model = vs.model;
       // moved-from: valid but unspecified; read it back (must be readable and consistent)
       vs.model = contents(*vs.sut);
@@ -712,7 +752,12 @@ struct World
     {
       if (!vs.sut || !v[t].sut || s == t)
         return;
-      guarded([&] { *v[t].sut = std::move(*vs.sut); });
+      if (!guarded([&] { *v[t].sut = std::move(*vs.sut); }))
+      {
+        vs.model = contents(*vs.sut);
+        v[t].model = contents(*v[t].sut);
+        return;
+      }
       v[t].model = vs.model;
       vs.model = contents(*vs.sut);
       ctx.ev("move_assign v" + std::to_string(s) + " -> v" + std::to_string(t));
@@ -869,17 +914,22 @@ struct World
       else if (ok && result_nothing)
       {
         SIM_CHECK(none, "spurious-nothing", n + " returned nothing although the reader succeeded");
-        // un-acknowledged: the buffer is still owned by the caller; read area unchanged,
-        // write area is the requested one
-        bsl.read = before;
-        bsl.wsize = cnt;
+        // un-acknowledged: the argument was passed as an rvalue, so the caller's object is only
+        // required to be valid afterwards (an implementation may keep it intact or consume it):
+        // read it back; ledger and ASan decide about leaks and double frees
+        Buf const &old = *bsl.sut;
+        bsl.read = contents(old);
+        bsl.wsize = old.write_size();
+        if (bsl.read == before)
+          ctx.probe("failed_append_left_source_intact");
       }
       else
       {
-        // threw: bad_alloc in resize_write_area (nothing changed) or the reader threw
-        // (write area resized, nothing read)
-        bsl.read = before;
-        bsl.wsize = sim::fault::fired(sim::fault::reader) ? cnt : wbefore;
+        // threw (bad_alloc while growing, or the reader's own exception): same rule
+        (void)wbefore;
+        Buf const &old = *bsl.sut;
+        bsl.read = contents(old);
+        bsl.wsize = old.write_size();
       }
       ctx.ev(n + " b" + std::to_string(bs) + " n=" + std::to_string(cnt) + " got=" + std::to_string(got) + (none ? " none" : "") + (ok ? "" : " threw"));
       return;
@@ -984,9 +1034,16 @@ struct World
       if (!bsl.sut || vs.sut)
         return;
       void const *const storage = static_cast<Buf const &>(*bsl.sut).read_data();
-      guarded([&] {
-        vs.sut = std::make_unique<RV>(fcppt::container::buffer::to_raw_vector(std::move(*bsl.sut)));
-      });
+      if (!guarded([&] {
+            vs.sut = std::make_unique<RV>(fcppt::container::buffer::to_raw_vector(std::move(*bsl.sut)));
+          }))
+      {
+        // (a conversion that allocates may fail: the buffer is read back, no vector was created)
+        Buf const &old0 = *bsl.sut;
+        bsl.read = contents(old0);
+        bsl.wsize = old0.write_size();
+        return;
+      }
       vs.model = bsl.read;
       if (static_cast<void const *>(vs.sut->data()) == storage)
         ctx.probe("to_vector_handed_over_storage");
@@ -1010,8 +1067,11 @@ struct World
       {
         DA const &cda = *da;
         SIM_CHECK(da->size() == cnt && static_cast<std::size_t>(da->data_end() - da->data()) == cnt && cda.data() == da->data() && cda.data_end() == da->data_end(), "dynamic_array-extent", n);
-        auto it = sim::ledger().live.find(static_cast<void *>(da->data()));
-        SIM_CHECK(it != sim::ledger().live.end() && it->second == cnt, "ledger:capacity-mismatch", "dynamic_array block");
+        if (cnt != 0 || da->data() != nullptr)
+        {
+          auto it = sim::ledger().live.find(static_cast<void *>(da->data()));
+          SIM_CHECK(it != sim::ledger().live.end() && it->second >= cnt, "ledger:capacity-mismatch", "dynamic_array block");
+        }
         std::vector<T> const src = fresh_n(cnt);
         std::copy(src.begin(), src.end(), da->data());
         SIM_CHECK(std::equal(src.begin(), src.end(), cda.data()), "dynamic_array-contents", n);
@@ -1036,13 +1096,15 @@ struct World
       bool const ok = guarded([&] { res = fcppt::io::read_chars(is, cnt); });
       if (ok)
       {
-        bool const faulted = sb.threw();
+        // the read error matters only if it struck before the requested characters were delivered
+        bool const faulted = sb.threw() && sb.fault_pos() < cnt;
         if (res.has_value())
         {
           auto const &rv = res.get_unsafe();
           std::string const got(rv.begin(), rv.end());
           SIM_CHECK(!faulted, "value-after-read-error", "read_chars returned data although the stream failed");
-          SIM_CHECK(cnt <= len && got == text.substr(0, cnt), "read_chars-contents",
+          // ("tries to read count chars": on a short file nothing, or exactly what was there)
+          SIM_CHECK(got == text.substr(0, std::min(cnt, len)), "read_chars-contents",
                     "got '" + got + "' from '" + text + "' count " + std::to_string(cnt));
         }
         else
